@@ -145,6 +145,12 @@ func (e *Engine) stub4(fn *ssa.Function, args []any) (any, bool) {
 
 func (e *Engine) intrinsic3(name string, args []any) (any, bool) {
 	switch name {
+	case "IfInt": // non-branching conditional values: the choice stays inside the term
+		return SymInt{"(ite " + boolE(args[0]) + " " + intE(args[1]) + " " + intE(args[2]) + ")"}, true
+	case "IfStr":
+		return SymStr{"(ite " + boolE(args[0]) + " " + strE(args[1]) + " " + strE(args[2]) + ")"}, true
+	case "IfBytes":
+		return BytesV{E: "(ite " + boolE(args[0]) + " " + bytesE(args[1]) + " " + bytesE(args[2]) + ")"}, true
 	case "NonCanonical": // a different byte string that decodes to the same message (natively: the encoding twice, which protobuf merges)
 		b := args[0].(BytesV)
 		sym, ok := e.resolve(bytesE(b), keysOf(msgOf))
@@ -308,6 +314,14 @@ func nonDefault(v any) string {
 			}
 		case TimeV:
 			parts = append(parts, "true")
+		case *MapV:
+			if x != nil && len(x.keys) > 0 {
+				parts = append(parts, "true")
+			}
+		case IfaceV:
+			if x.T != nil {
+				parts = append(parts, "true")
+			}
 		}
 	}
 	walk(v)
